@@ -120,10 +120,14 @@ structure App where
   ready : Bool := false
   answerWaiting : List Nat := []          -- hop-by-hop ids of blocked senders
   raiseOnRequest : Bool := false
-  -- ThreadingApplication
+  deriving Repr, Inhabited
+
+/-- The queues, slot counter and consumer threads of a `ThreadingApplication`
+    (kept apart from `App`: nothing in the node touches them). -/
+structure TApp where
   recvQ : List AMsg := []                 -- `_recv_msg_queue`
-  respQ : List AMsg := []                 -- `_resp_msg_queue` (answers; with the repair also `None` markers, see `respNone`)
-  respNone : Nat := 0                     -- `None` results queued behind the answers (repaired code only)
+  respQ : List AMsg := []                 -- `_resp_msg_queue`: answers …
+  respNone : Nat := 0                     -- … and `None` results (repaired code only)
   slots : Nat := 0                        -- `_thread_slots` in use
   recvAlive : Bool := true
   respAlive : Bool := true
@@ -183,7 +187,9 @@ structure St where
   appRequests : List (Nat × AMsg) := []            -- requests handed to applications, in order
   delivered : List (Nat × AMsg) := []              -- answers handed to blocked senders
   inProgress : List Nat := []                      -- non-blocking connects whose outcome is not known yet
+  tapps : List TApp := []                          -- per application index
   deferred : List (Nat × AMsg) := []               -- started handler threads that have not run yet
+  crashed : Nat := 0                               -- worker threads that terminated with an exception
   outs : List Out := []
   deriving Repr, Inhabited
 
@@ -206,6 +212,9 @@ def St.modPeer (s : St) (i : Nat) (f : Peer → Peer) : St :=
 
 def St.modApp (s : St) (i : Nat) (f : App → App) : St :=
   { s with apps := s.apps.mapIdx fun k a => if k == i then f a else a }
+
+def St.modTApp (s : St) (i : Nat) (f : TApp → TApp) : St :=
+  { s with tapps := s.tapps.mapIdx fun k a => if k == i then f a else a }
 
 def peerIdx? (s : St) (name : String) : Option Nat :=
   s.peers.findIdx? (·.name == name)
@@ -348,12 +357,12 @@ def flagConnectionAsReady (s : St) (cid : Nat) : St :=
 def originKey (cid : Nat) (m : AMsg) : Nat × Nat × Nat :=
   (if Config.originKeyPerConn then cid + 1 else 0, m.hbh, m.e2e)
 
-/-- `_record_answer`; `none` = raised TypeError (typed answer without Result-Code
-    for a known peer: `int(None / 1000)`). -/
-def recordAnswer (s : St) (cid : Nat) (m : AMsg) (hasRC : Bool) : Option St :=
+/-- `_record_answer`, the state it leaves behind (also when it raises: the deque
+    append and the deletion happen before the raise). -/
+def recordAnswerState (s : St) (cid : Nat) (m : AMsg) : St :=
   let key := originKey cid m
   match s.originWaiting.find? (·.1 == key) with
-  | none => some s
+  | none => s
   | some (_, origin) =>
     let s :=
       if s.sentAnswers.any (·.1 == origin) then
@@ -365,15 +374,26 @@ def recordAnswer (s : St) (cid : Nat) (m : AMsg) (hasRC : Bool) : Option St :=
       else
         let dq := [m.e2e]
         { s with sentAnswers := s.sentAnswers ++ [(origin, (s.cfg.rq, if dq.length > s.cfg.rq then [] else dq))] }
-    let s := { s with originWaiting := s.originWaiting.filter (·.1 != key) }
+    { s with originWaiting := s.originWaiting.filter (·.1 != key) }
+
+/-- `_record_answer` raises TypeError for a typed answer without Result-Code to a
+    known peer (`int(None / 1000)`). -/
+def recordAnswerRaises (s : St) (cid : Nat) (m : AMsg) (hasRC : Bool) : Bool :=
+  match s.originWaiting.find? (·.1 == originKey cid m) with
+  | none => false
+  | some _ =>
     match s.conn? cid with
-    | none => some s
+    | none => false
     | some c =>
       match findConnectionPeer s c with
-      | some _ => if hasRC && m.rc.isNone then none else some s
-      | none => some s
+      | some _ => hasRC && m.rc.isNone
+      | none => false
 
-/-- `send_message`; `none` = `_record_answer` raised after the message was queued.
+/-- `_record_answer`; `none` = raised. -/
+def recordAnswer (s : St) (cid : Nat) (m : AMsg) (hasRC : Bool) : Option St :=
+  if recordAnswerRaises s cid m hasRC then none else some (recordAnswerState s cid m)
+
+/-- `send_message`; `false` = `_record_answer` raised after the message was queued.
     The returned state is the one *after* queueing in both cases. -/
 def sendMessage (s : St) (cid : Nat) (m : AMsg) (hasRC : Bool) : St × Bool :=
   match s.conn? cid with
@@ -385,25 +405,7 @@ def sendMessage (s : St) (cid : Nat) (m : AMsg) (hasRC : Bool) : St × Bool :=
             if h == c.hostIdentity then (h, l.filter (· != m.hbh)) else (h, l) }
       else s
     let s := s.modConn cid fun x => { x with outQ := x.outQ ++ [m] }
-    if !m.isRequest then
-      match recordAnswer s cid m hasRC with
-      | some s' => (s', true)
-      | none =>
-        -- deque append and deletion happened before the raise
-        let key := originKey cid m
-        let s1 := match s.originWaiting.find? (·.1 == key) with
-          | none => s
-          | some (_, origin) =>
-            let s :=
-              if s.sentAnswers.any (·.1 == origin) then
-                { s with sentAnswers := s.sentAnswers.map fun (o, (mx, dq)) =>
-                    if o == origin then
-                      let dq' := dq ++ [m.e2e]
-                      (o, (mx, if dq'.length > mx then dq'.drop (dq'.length - mx) else dq'))
-                    else (o, (mx, dq)) }
-              else { s with sentAnswers := s.sentAnswers ++ [(origin, (s.cfg.rq, [m.e2e]))] }
-            { s with originWaiting := s.originWaiting.filter (·.1 != key) }
-        (s1, false)
+    if !m.isRequest then (recordAnswerState s cid m, !recordAnswerRaises s cid m hasRC)
     else (s, true)
 
 /-- `_generate_answer(conn, msg)` + the fields the caller sets. -/
@@ -479,8 +481,8 @@ def receiveCer (s : St) (cid : Nat) (m : AMsg) (info : MsgInfo) : HR :=
     match peerIdx? s cerHost with
     | none =>
       let s := s.modConn cid fun c => { c with state := .closing }
-      let (s, ok) := sendMessage s cid { ans0 with rc := some 3010 } true
-      (s, if ok then none else some .typeError)
+      let r := sendMessage s cid { ans0 with rc := some 3010 } true
+      (r.1, if r.2 then none else some .typeError)
     | some _ =>
       let s := match s.conn? cid with
         | some c => if c.nodeName == "" then s.modConn cid fun c => { c with nodeName := cerHost } else s
@@ -493,22 +495,22 @@ def receiveCer (s : St) (cid : Nat) (m : AMsg) (info : MsgInfo) : HR :=
         else s
       if lost then
         let s := s.modConn cid fun c => { c with state := .closing }
-        let (s, ok) := sendMessage s cid { ans0 with rc := some 4003 } true
-        (s, if ok then none else some .typeError)
+        let r := sendMessage s cid { ans0 with rc := some 4003 } true
+        (r.1, if r.2 then none else some .typeError)
       else
         let isRelay := m.auth.contains 0xffffffff || m.acct.contains 0xffffffff
         let sa := (authIds s).filter m.auth.contains
         let sc := (acctIds s).filter m.acct.contains
         if sa.isEmpty && sc.isEmpty && !isRelay then
-          let (s, ok) := sendMessage s cid { ans0 with rc := some 5010 } true
-          (s, if ok then none else some .typeError)
+          let r := sendMessage s cid { ans0 with rc := some 5010 } true
+          (r.1, if r.2 then none else some .typeError)
         else
           let s := s.modConn cid fun c =>
             { c with authApps := sa, acctApps := sc, originHost := s.cfg.host, hostIdentity := cerHost }
           let s := assignPeerConnection s cid
           let s := flagConnectionAsReady s cid
-          let (s, ok) := sendMessage s cid { ans0 with rc := some 2001 } true
-          (s, if ok then none else some .typeError)
+          let r := sendMessage s cid { ans0 with rc := some 2001 } true
+          (r.1, if r.2 then none else some .typeError)
 
 /-- `receive_cea`. -/
 def receiveCea (s : St) (cid : Nat) (m : AMsg) : HR :=
@@ -531,8 +533,8 @@ def receiveDpr (s : St) (cid : Nat) (m : AMsg) (info : MsgInfo) : HR :=
       | some i => s.modPeer i fun p => { p with reason := some .dpr }
       | none => s
     | none => s
-  let (s, ok) := sendMessage s cid ans true
-  (s, if ok then none else some .typeError)
+  let r := sendMessage s cid ans true
+  (r.1, if r.2 then none else some .typeError)
 
 /-- `receive_dpa`. -/
 def receiveDpa (s : St) (cid : Nat) : St :=
@@ -541,8 +543,8 @@ def receiveDpa (s : St) (cid : Nat) : St :=
 /-- `receive_dwr`. -/
 def receiveDwr (s : St) (cid : Nat) (m : AMsg) (info : MsgInfo) : HR :=
   let ans := generateAnswer s m info (some 2001)
-  let (s, ok) := sendMessage s cid ans true
-  (s, if ok then none else some .typeError)
+  let r := sendMessage s cid ans true
+  (r.1, if r.2 then none else some .typeError)
 
 /-- `receive_dwa` → `reset_last_dwa`. -/
 def receiveDwa (s : St) (cid : Nat) : St :=
@@ -553,7 +555,7 @@ def receiveDwa (s : St) (cid : Nat) : St :=
 def appReceiveRequest (s : St) (ai : Nat) (m : AMsg) : HR :=
   if (s.apps[ai]?).map (·.kind) == some AppKind.threading then
     -- ThreadingApplication.receive_request: only queues the message
-    (s.modApp ai fun a => { a with recvQ := a.recvQ ++ [m] }, none)
+    (s.modTApp ai fun a => { a with recvQ := a.recvQ ++ [m] }, none)
   else
   let s := { s with appRequests := s.appRequests ++ [(ai, m)] }
   let s := s.emit (.appReq ai m)
@@ -568,15 +570,15 @@ def receiveAppRequest (s : St) (cid : Nat) (m : AMsg) (info : MsgInfo) : HR :=
   | some c =>
     let peer := findConnectionPeer s c
     if !info.hasDR then
-      let (s, ok) := sendMessage s cid (generateAnswer s m info (some 3007)) info.ansTyped
-      (s, if ok then none else some .typeError)
+      let r := sendMessage s cid (generateAnswer s m info (some 3007)) info.ansTyped
+      (r.1, if r.2 then none else some .typeError)
     else match m.dr with
       | none => (s, some .attributeError)        -- `None.decode()`
       | some realm =>
         match s.routes.find? (·.1 == realm) with
         | none =>
-          let (s, ok) := sendMessage s cid (generateAnswer s m info (some 3003)) info.ansTyped
-          (s, if ok then none else some .typeError)
+          let r := sendMessage s cid (generateAnswer s m info (some 3003)) info.ansTyped
+          (r.1, if r.2 then none else some .typeError)
         | some (_, tbl) =>
           let pick := tbl.findSome? fun (k, ps) =>
             match k with
@@ -598,8 +600,8 @@ def receiveAppRequest (s : St) (cid : Nat) (m : AMsg) (info : MsgInfo) : HR :=
               else { s with peerWaiting := s.peerWaiting ++ [(c.hostIdentity, [m.hbh])] }
             appReceiveRequest s ai m
           | none =>
-            let (s, ok) := sendMessage s cid (generateAnswer s m info (some 3007)) info.ansTyped
-            (s, if ok then none else some .typeError)
+            let r := sendMessage s cid (generateAnswer s m info (some 3007)) info.ansTyped
+            (r.1, if r.2 then none else some .typeError)
 
 /-- `Application.receive_answer`. -/
 def appReceiveAnswer (s : St) (ai : Nat) (m : AMsg) : St :=
@@ -646,6 +648,7 @@ def answeredInWindow (s : St) (m : AMsg) : Bool :=
   | none => false
 
 def crashReader (s : St) (cid : Nat) (exc : String) : St :=
+  let s := { s with crashed := s.crashed + 1 }
   (s.modConn cid fun c => { c with readerCrashed := true }).emit (.crash s!"reader c{cid}" exc)
 
 /-- `_receive_message`. A `crash` output is emitted when an exception escapes
@@ -655,13 +658,13 @@ def receiveMessage (s : St) (cid : Nat) (m : AMsg) (info : MsgInfo) : St :=
   -- pre-`try` section
   if m.isRequest && info.validateRaises then crashReader s cid "ValueError"
   else if m.isRequest && !info.missing.isEmpty then
-    let (s, ok) := sendMessage s cid (generateAnswer s m info (some 5005) info.missing) info.ansTyped
-    if ok then s else crashReader s cid "TypeError"
+    let r := sendMessage s cid (generateAnswer s m info (some 5005) info.missing) info.ansTyped
+    if r.2 then r.1 else crashReader r.1 cid "TypeError"
   else
     let dup := info.hasOH && m.isRequest && m.isRetransmit && answeredInWindow s m
     if dup then
-      let (s, ok) := sendMessage s cid (generateAnswer s m info (some 5012)) info.ansTyped
-      if ok then s else crashReader s cid "TypeError"
+      let r := sendMessage s cid (generateAnswer s m info (some 5012)) info.ansTyped
+      if r.2 then r.1 else crashReader r.1 cid "TypeError"
     else
       match handleByCommand s cid m info with
       | (s', none) => s'
@@ -669,8 +672,8 @@ def receiveMessage (s : St) (cid : Nat) (m : AMsg) (info : MsgInfo) : St :=
         -- `except Exception`: build a 5012 "answer" (only for requests in the repaired code)
         if Config.answerOnlyRequests && !m.isRequest then s
         else
-          let (s, ok) := sendMessage s cid (generateAnswer s m info (some 5012)) info.ansTyped
-          if ok then s else crashReader s cid "TypeError"
+          let r := sendMessage s cid (generateAnswer s m info (some 5012)) info.ansTyped
+          if r.2 then r.1 else crashReader r.1 cid "TypeError"
 
 /-- `PeerConnection.__dispatch_message`: the capabilities-exchange gate.
     `Config.gateClosing`: the gate also drops everything on a CLOSING connection. -/
@@ -729,7 +732,7 @@ def connectToPeer (s : St) (pi : Nat) : St :=
       let c : Conn := { id := cid, dir := .send, state := .connecting, nodeName := p.name,
                         originHost := s.cfg.host, lastRead := s.now, established := s.now, hbh := s.nextHbhSeed }
       let s := { s with nextHbhSeed := s.nextHbhSeed + 1000 }
-      let (s, _) := addPeerConnection s c
+      let s := (addPeerConnection s c).1
       let s := s.emit (.dialled pi)
       if plan == "fail" then
         -- `remove_peer_connection(conn, SOCKET_FAIL)`: socket and workers are left alone
